@@ -48,7 +48,13 @@ func pick(rng *rand.Rand, pool []string, n int) []string {
 	return out
 }
 
+// varint width boundaries: values that need one byte more than their predecessor
+var boundaryVals = []uint64{127, 128, 129, 16383, 16384, 16385, 2097151, 2097152}
+
 func genAP(rng *rand.Rand) []uint64 {
+	if rng.Intn(16) == 0 {
+		return []uint64{boundaryVals[rng.Intn(len(boundaryVals))]}
+	}
 	switch rng.Intn(10) {
 	case 0, 1, 2, 3, 4:
 		return nil
@@ -70,7 +76,9 @@ func genAP(rng *rand.Rand) []uint64 {
 
 func genValue(rng *rand.Rand, big bool) []byte {
 	var n int
-	switch rng.Intn(12) {
+	switch rng.Intn(13) {
+	case 12:
+		n = []int{126, 127, 128, 129, 255, 256}[rng.Intn(6)] // record-header width boundaries
 	case 0:
 		n = 0
 	case 1:
@@ -124,6 +132,9 @@ func Gen(rng *rand.Rand, class string, o GenOpts) *Batch {
 		nDocs, nFieldNames, maxInst, nTerms, maxToks = 2+rng.Intn(5), 1+rng.Intn(3), 2+rng.Intn(4), 6, 5
 	case "mid":
 		nDocs, nFieldNames, maxInst, nTerms, maxToks = 20+rng.Intn(41), 2+rng.Intn(3), 1+rng.Intn(2), 5+rng.Intn(8), 4
+		if rng.Intn(8) == 0 {
+			nDocs = []int{127, 128, 129, 255, 256, 257}[rng.Intn(6)] // doc-number width boundaries
+		}
 	case "tall":
 		nDocs, nFieldNames, maxInst, nTerms, maxToks = 1100+rng.Intn(1500), 1+rng.Intn(2), 1, 3+rng.Intn(3), 2
 	case "stored":
@@ -254,6 +265,18 @@ func Gen(rng *rand.Rand, class string, o GenOpts) *Batch {
 							loc := Loc{Pos: pos, Start: off, End: off + uint64(len(t))}
 							if rng.Intn(40) == 0 {
 								loc.End = 1 << 33
+							}
+							if rng.Intn(24) == 0 {
+								// varint width boundaries in position / offsets
+								v := boundaryVals[rng.Intn(len(boundaryVals))]
+								switch rng.Intn(3) {
+								case 0:
+									loc.Pos = v
+								case 1:
+									loc.Start = v
+								default:
+									loc.End = v
+								}
 							}
 							if len(f.AP) > 0 {
 								loc.AP = append([]uint64(nil), f.AP...)
